@@ -383,6 +383,8 @@ static J plan_c09(uint64_t seed, const std::string &tier) {
   for (auto &op : ops.a) {
     std::string k = op.str("k");
     if ((k == "crypt_r" || k == "crypt_rn") && !op.has("pre") && g.chance(3, 4)) { op["pre"] = "garbage"; op["gseed"] = (long long)g.below(1000000); }
+    // erasure must also hold on the paths an allocator/mapping failure takes
+    if (op.has("ph") && g.chance(1, 10)) { J f = J::arr(); f.push((long long)g.range(1, 3)); op["faults"] = f; op["huge_ok"] = g.chance(1, 2); }
   }
   int extra = (int)g.range(1, 4);
   for (int i = 0; i < extra; i++) {
